@@ -180,11 +180,23 @@ var linkFields = map[string]bool{
 
 // argProvenance classifies a node-typed argument: "param" (a parameter itself), "descent" (reached from a parameter or
 // range element through child fields), "link" (through a validation link, a lookup or a search), "fresh", "other".
+var provSeen = map[ssa.Value]bool{}
+
 func argProvenance(v ssa.Value, depth int) string {
-	if depth > 10 {
+	if depth == 0 {
+		provSeen = map[ssa.Value]bool{}
+	}
+	if depth > 14 {
 		return "other"
 	}
 	v = stripChange(v)
+	if ph, isPhi := v.(*ssa.Phi); isPhi {
+		if provSeen[ph] {
+			return "self" // the loop cursor itself: a child step from it is a descent
+		}
+		provSeen[ph] = true
+		defer delete(provSeen, ph)
+	}
 	switch x := v.(type) {
 	case *ssa.Parameter:
 		return "param"
@@ -206,13 +218,13 @@ func argProvenance(v ssa.Value, depth int) string {
 				return "link"
 			}
 			base := argProvenance(b, depth+1)
-			if base == "param" || base == "descent" {
+			if base == "param" || base == "descent" || base == "weak-descent" || base == "self" {
 				return "descent"
 			}
 			return base
 		case *ssa.IndexAddr:
 			base := argProvenance(ad.X, depth+1)
-			if base == "param" || base == "descent" {
+			if base == "param" || base == "descent" || base == "weak-descent" || base == "self" {
 				return "descent"
 			}
 			return base
@@ -289,6 +301,7 @@ func argProvenance(v ssa.Value, depth int) string {
 		return "link" // a search (ForName) or any computed node
 	case *ssa.Phi:
 		worst := "fresh"
+		sawParam, sawDescent := false, false
 		for _, e := range x.Edges {
 			if e == v {
 				continue
@@ -298,12 +311,21 @@ func argProvenance(v ssa.Value, depth int) string {
 			case "link", "other":
 				return pv
 			case "param":
-				worst = "param"
-			case "descent":
-				if worst != "param" {
-					worst = "descent"
-				}
+				sawParam = true
+			case "descent", "weak-descent":
+				sawDescent = true
+			case "self":
 			}
+		}
+		switch {
+		case sawParam && sawDescent:
+			// a loop cursor: the parameter after zero or more child steps. Whether at least one step was taken
+			// is a numeric question this classification does not answer; it is not reported as non-descending.
+			return "weak-descent"
+		case sawDescent:
+			return "descent"
+		case sawParam:
+			return "param"
 		}
 		return worst
 	case *ssa.Slice:
@@ -601,7 +623,7 @@ func c02Recursion(c *Ctx, r3, r4 *RuleResult, scope map[*ssa.Function]bool) {
 						continue
 					}
 					switch argProvenance(a, 0) {
-					case "descent":
+					case "descent", "weak-descent":
 						strict = true
 					case "param", "fresh":
 					default:
